@@ -18,26 +18,36 @@ UT = 'cirbo/core/circuit/utils.py'
 
 
 class AppendRestLoop:
+    """the destination list is identified by its ROLE - the list the one-statement body appends the loop variable to - not
+    by the name of a local (seeded/harmless/k07 renames every local of order_list)"""
+    dst = 'new_list'
+
     def applies(self, it, env, iterable):
+        import ast
         self.src = iterable
         self.items = None
+        st = getattr(self, 'stmt', None)
+        if (st is not None and len(st.body) == 1 and isinstance(st.body[0], ast.Expr) and isinstance(st.body[0].value, ast.Call)
+                and isinstance(st.body[0].value.func, ast.Attribute) and st.body[0].value.func.attr == 'append'
+                and isinstance(st.body[0].value.func.value, ast.Name)):
+            self.dst = st.body[0].value.func.value.id
         return isinstance(iterable, CM.MutLabelList)
 
     def _setup(self, it, env):
         if self.items is None:
-            cur = env['new_list']
+            cur = env[self.dst]
             self.items = [it.label_term(x) for x in cur.items] if isinstance(cur, VList) else list(cur.items)
 
     def inv(self, it, env, k):
         self._setup(it, env)
-        cur = env['new_list']
+        cur = env[self.dst]
         if isinstance(cur, VList):
             return [('nothing-appended-yet', z3.And(k == 0, z3.BoolVal(len(cur.items) == len(self.items))))]
         return [('appended-so-far', z3.And(cur.k == k, z3.BoolVal(cur.src is self.src)))]
 
     def install(self, it, env, k):
         self._setup(it, env)
-        env['new_list'] = CM.TailList(self.items, self.src, k)
+        env[self.dst] = CM.TailList(self.items, self.src, k)
 
 
 def result_views(it, r):
